@@ -190,6 +190,7 @@ def run(ctx: Ctx) -> int:
         ctx.oblige("C03.R3", ok, r, "raising instead of exiting depends only on exit_on_error / debug mode" if ok else "the raise branch of error() is guarded by something else", fn=err)
     for ref, what in (("_actions:_ActionPrintConfig.print_config_if_requested", "--print_config"), ("_actions:_ActionHelpClassPath.print_help", "class help")):
         fn = ctx.func(ref)
+        ctx.expect_locals(fn, ["parser"])
         ex = [c for c in calls_in(fn) if call_leaf(c) == "exit" and root_name(c.func) == "parser"]
         ok = bool(ex) and all(not c.args and not c.keywords for c in ex)
         ctx.oblige("C03.R3", ok, ex[0] if ex else fn, f"{what} exits with status 0 (parser.exit() without status)" if ok else f"{what} no longer exits with status 0", fn=fn)
